@@ -126,17 +126,60 @@ def value_tol(c, obj, ts):
     return vb * 1e-11 + 1e-300
 
 
+SCALARS = ("rms", "f_min", "f_max")
+
+
 class Snap:
     """The basis an object publishes at some moment."""
     def __init__(self, o):
         self.freqs, self.amps, self.phases, self.rms = (np.array(o.freqs, dtype=float), np.array(o.amps, dtype=float),
                                                         np.array(o.phases, dtype=float), float(o.rms))
+        self.f_min, self.f_max = float(o.f_min), float(o.f_max)
 
 
-def gen_assignment(rng, c, o):
+def with_band(c, o):
+    """The case with the band the object publishes now."""
+    return dict(c, fmin=float(o.f_min), fmax=float(o.f_max))
+
+
+def gen_rebasis(rng, c, o):
+    """A complete basis of a DIFFERENT length (what re-creating noise from a stored basis of another object does).
+    Full variant: freqs/amps/phases of another length inside the band.  FFT variant: the band is moved
+    (f_min, f_max) and freqs/amps/phases of the bins of the new band are published with it."""
+    n = len(o.freqs)
+    t = c["times"]
+    if c["cls"] == "full":
+        n2 = rng.choice([k for k in range(1, max(2 * n, 5) + 1) if k != n][:60] or [n + 1])
+        lo, hi = float(o.f_min), float(o.f_max)
+        freqs = sorted(lo + (hi - lo) * rng.uniform(0.01, 0.99) for _ in range(n2))
+        return {"freqs": freqs, "amps": [rng.choice([1.0, rng.uniform(0.05, 3.0)]) for _ in range(n2)],
+                "phases": [rng.uniform(0, 2 * math.pi) for _ in range(n2)]}
+    m = max(1, int(c["uf"])) * len(t)
+    dt = t[1] - t[0]
+    allf = np.fft.rfftfreq(m, dt)
+    nb = len(allf)
+    for _ in range(50):
+        k0 = rng.randint(0, nb - 1)
+        k1 = min(nb - 1, k0 + rng.randint(0, 40 if m > 400 else nb))
+        if k1 - k0 + 1 != n:
+            break
+    df = 1.0 / (m * dt)
+    f_min, f_max = (k0 - 0.3) * df, (k1 + 0.3) * df
+    freqs = allf[(allf >= f_min) & (allf <= f_max)]
+    return {"f_min": f_min, "f_max": f_max, "freqs": [float(f) for f in freqs],
+            "amps": [0.0 if f == 0 else rng.choice([1.0, rng.uniform(0.05, 3.0)]) for f in freqs],
+            "phases": [rng.uniform(0, 2 * math.pi) for _ in freqs]}
+
+
+def gen_assignment(rng, c, o, rebasis=None):
     """A new value for a non-empty subset of the assignable basis attributes (amps, phases, rms; freqs too for
-    the Full variant, whose waveform is computed from self.freqs).  Amplitudes at a zero frequency stay zero,
-    as in every basis a constructor publishes."""
+    the Full variant, whose waveform is computed from self.freqs), or - rebasis - a complete basis of another
+    length.  Amplitudes at a zero frequency stay zero, as in every basis a constructor publishes."""
+    if rebasis or (rebasis is None and rng.random() < 0.35):
+        new = gen_rebasis(rng, c, o)
+        if rng.random() < 0.3:
+            new["rms"] = float(o.rms) * rng.choice([0.5, 2.0, rng.uniform(0.1, 10)])
+        return new
     n = len(o.freqs)
     names = ["amps", "phases", "rms"] + (["freqs"] if c["cls"] == "full" else [])
     k = rng.choice([1, 1, 2, 2, 3, len(names)])
@@ -152,23 +195,29 @@ def gen_assignment(rng, c, o):
         elif name == "rms":
             new["rms"] = float(o.rms) * rng.choice([0.5, 2.0, 3.0, rng.uniform(0.1, 10)])
         else:
-            lo, hi = c["fmin"], c["fmax"]
+            lo, hi = float(o.f_min), float(o.f_max)
             new["freqs"] = sorted(lo + (hi - lo) * rng.uniform(0.01, 0.99) for _ in range(n))
     return new
 
 
 def assign(o, new):
     for name, v in new.items():
-        setattr(o, name, np.array(v, dtype=float) if name != "rms" else float(v))
+        setattr(o, name, float(v) if name in SCALARS else np.array(v, dtype=float))
 
 
-def run_history(c, hist):
-    """build(c); evaluate; then for each step: assign, evaluate with_times(step ts).  Returns the object and the
+def describe(new):
+    ln = len(new["amps"]) if "amps" in new else None
+    return "+".join(sorted(new)) + (" (basis of %d frequencies)" % ln if "freqs" in new and ln is not None else "")
+
+
+def run_history(c, hist, pre_eval=True):
+    """build(c); (evaluate;) then for each step: assign, evaluate with_times(step ts).  Returns the object and the
     list of value arrays (one per step)."""
     o, _ = build(c)
-    np.asarray(o.values)
     t = c["times"]
-    np.asarray(o.with_times(np.array(t[:max(2, len(t) // 2)])).values)
+    if pre_eval:
+        np.asarray(o.values)
+        np.asarray(o.with_times(np.array(t[:max(2, len(t) // 2)])).values)
     outs = []
     for st in hist:
         assign(o, st["assign"])
@@ -189,6 +238,18 @@ def gen_case(rng, cls, big=False):
     times = [t0 + i * dt for i in range(n)]
     if not times[1] - times[0] > 0:
         times = [i * dt for i in range(n)]
+    decimal_k = None
+    if rng.random() < 0.3:
+        # grids as users write them: a DECIMAL step and a start at -k steps, so that windows starting at "round"
+        # times (0.0, j*dt) have buffer/dt an exact integer in floating point while buffer % dt is not zero
+        dt = rng.choice([0.1e-9, 0.5e-9, 1e-9, 0.2e-9, 0.25e-9, 2e-9, 0.4e-9, 0.1, 0.2, 0.5, 0.05, 1.0, 1e-3, 0.3, 0.7e-9, 1e-8])
+        decimal_k = rng.randint(1, 50)
+        n = max(n, decimal_k + rng.randint(4, 40))
+        if cls == "fft" and n > 100:
+            n = min(n, 160)
+        form = rng.randint(0, 2)
+        times = ([(i - decimal_k) * dt for i in range(n)] if form == 0 else [-decimal_k * dt + i * dt for i in range(n)] if form == 1
+                 else [float(x) for x in np.linspace(-decimal_k * dt, (n - 1 - decimal_k) * dt, n)])
     dt = times[1] - times[0]
     fny = 0.5 / dt
     uf = rng.choice([1, 1, 2, 3, 4, 5, 0, 0.5, 2.7, 10 if n <= 16 else 1])
@@ -234,7 +295,7 @@ def gen_case(rng, cls, big=False):
         else (10.0 ** rng.uniform(-6, 1), rng.uniform(50, 400), rng.uniform(10, 100)) if r < 0.95 else (None, rng.choice([None, 300.0]), None)
     amp = rng.choice(AMP_KINDS + ["rayleigh", "constant"])
     return {"cls": cls, "times": times, "fmin": a, "fmax": b, "uf": uf, "band": band, "rms": rms, "T": T, "R": R,
-            "amp": amp, "ampc": rng.choice([1.0, 1.0, rng.uniform(0.1, 3)]), "seed": rng.randrange(2 ** 31)}
+            "amp": amp, "ampc": rng.choice([1.0, 1.0, rng.uniform(0.1, 3)]), "seed": rng.randrange(2 ** 31), "decimal_k": decimal_k}
 
 
 def windows(rng, c, nmax):
@@ -255,12 +316,44 @@ def windows(rng, c, nmax):
     frac = rng.uniform(0.05, 0.95)
     off = rng.randint(-m, m)
     out["offgrid"] = [t[0] + (i + frac + off) * dt for i in range(0, n, max(1, n // nmax))]
+    out.update(round_windows(rng, c))
     return {k: v for k, v in out.items() if len(v) >= 2}
+
+
+def round_windows(rng, c):
+    """Windows inside the span of the grid that start / end at 'round' times written independently of the grid
+    (0.0, j*step with the nominal decimal step): re-gridding onto them goes through the leading/trailing buffer
+    arithmetic of FunctionSignal with buffer lengths that are not differences of two grid times."""
+    t = c["times"]
+    out = {}
+    k = c.get("decimal_k")
+    if not k:
+        return out
+    n = len(t)
+    step = float("%.12g" % (t[1] - t[0]))           # the nominal decimal step
+    hi = n - 1 - k                                   # index of the last grid sample counted from t = 0
+    if hi >= 2:
+        m = rng.randint(2, hi)
+        w = [i * step for i in range(m + 1)]
+        out["zero-start"] = [x for x in w if x <= t[-1]]
+        j = rng.randint(0, hi - 1)
+        w = [(j + i) * step for i in range(rng.randint(2, hi - j + 1))]
+        out["round-start"] = [x for x in w if x <= t[-1]]
+    if k >= 2:
+        m = rng.randint(1, k - 1)
+        w = [(i - m) * step for i in range(m + 1)]              # ends exactly at 0.0
+        out["zero-end"] = [x for x in w if x >= t[0]]
+        j = rng.randint(1, k)
+        w = [-j * step + i * step for i in range(rng.randint(2, j + max(2, hi)))]
+        out["negative-round-start"] = [x for x in w if t[0] <= x <= t[-1]]
+    return out
 
 
 def short(c):
     d = {k: c[k] for k in ("cls", "fmin", "fmax", "uf", "band", "rms", "T", "R", "amp", "ampc", "seed")}
     d.update(n=len(c["times"]), t0=c["times"][0], dt=c["times"][1] - c["times"][0])
+    if c.get("decimal_k"):
+        d["grid"] = "decimal step, starts at -%d steps" % c["decimal_k"]
     return d
 
 
@@ -343,23 +436,23 @@ def correspondence(ctx, exe, count):
             wl = [w for w in wins.values()]
             for _ in range(rng.randint(1, 3)):
                 new = gen_assignment(rng, c, shadow)
-                for k2, v2 in new.items():
-                    setattr(shadow, k2, np.array(v2, dtype=float) if k2 != "rms" else float(v2))
+                assign(shadow, new)
                 hist.append({"assign": new, "ts": rng.choice(wl)})
+            pre_eval = rng.random() < 0.7
             try:
-                hobj, houts = run_history(c, hist)
+                hobj, houts = run_history(c, hist, pre_eval)
             except Exception as e:
                 lim.fail("history", "corr:%s:history:exception" % tag, "evaluate/assign/evaluate history raised %s: %s; case %s" % (type(e).__name__, e, short(c)),
-                         {"kind": "corr", "case": c, "history": hist})
+                         {"kind": "corr", "case": c, "history": hist, "pre_eval": pre_eval})
                 continue
-            dist["history:" + c["cls"]] = dist.get("history:" + c["cls"], 0) + 1
+            hk = "history:%s:%s%s" % (c["cls"], "evaluated-first" if pre_eval else "fresh", ":other-length" if any("freqs" in st["assign"] and len(st["assign"]["freqs"]) != len(obj.freqs) for st in hist) else "")
+            dist[hk] = dist.get(hk, 0) + 1
             cur = Snap(obj)
             for i, st in enumerate(hist):
-                for k2, v2 in st["assign"].items():
-                    setattr(cur, k2, np.array(v2, dtype=float) if k2 != "rms" else float(v2))
+                assign(cur, st["assign"])
                 snap = Snap(cur)
-                lines.append(model_lines(c, snap.freqs, snap.amps, snap.phases, snap.rms, st["ts"]))
-                plan.append((c, snap, "history", (i, hist, houts[i]), st["ts"]))
+                lines.append(model_lines(with_band(c, snap), snap.freqs, snap.amps, snap.phases, snap.rms, st["ts"]))
+                plan.append((c, snap, "history", (i, hist, houts[i], pre_eval), st["ts"]))
     try:
         outs = dft_extract.run_lines(exe, lines)
     except Exception as e:
@@ -392,7 +485,7 @@ def correspondence(ctx, exe, count):
                 lim.fail("amps", "corr:%s:amps" % tag, "published amps differ from the amplitude specification with the DC bin zeroed; case %s" % short(c),
                          {"kind": "corr", "case": c})
         elif what == "history":
-            i, hist, impl = wname
+            i, hist, impl, pre_eval = wname
             tol = value_tol(c, obj, ts)
             nvals += len(ts)
             d = float(np.max(np.abs(impl - model))) if len(ts) and impl.shape == model.shape else float("inf")
@@ -401,10 +494,11 @@ def correspondence(ctx, exe, count):
             if not d <= tol:
                 j = int(np.argmax(np.abs(impl - model))) if impl.shape == model.shape else 0
                 lim.fail("history", "corr:%s:history" % tag,
-                         "%s: after evaluating, assigning %s and evaluating again (step %d of the history) with_times(...).values is not the waveform of the "
+                         "%s: after %s, assigning %s and evaluating (step %d of the history) with_times(...).values is not the waveform of the "
                          "basis the object now publishes: |impl-model|=%.3g > %.3g at t=%r (impl %r, model %r); case %s"
-                         % (c["cls"], "+".join(sorted(hist[i]["assign"])), i + 1, d, tol, ts[j], impl[j] if impl.shape == model.shape else None,
-                            model[j] if len(model) else None, short(c)), {"kind": "corr", "case": c, "history": hist[:i + 1], "ts": ts})
+                         % (c["cls"], "a first evaluation" if pre_eval else "construction (never evaluated)", describe(hist[i]["assign"]), i + 1, d, tol, ts[j],
+                            impl[j] if impl.shape == model.shape else None, model[j] if len(model) else None, short(c)),
+                         {"kind": "corr", "case": c, "history": hist[:i + 1], "ts": ts, "pre_eval": pre_eval})
         else:
             try:
                 if wname == "own" and len(ts) == len(c["times"]):
@@ -580,6 +674,66 @@ def probes(ctx, count):
                              "%s: after evaluate -> assign %s -> evaluate the waveform is not the cosine sum of the basis the object publishes now "
                              "(max diff %.3g > %.3g); case %s" % (cls, "+".join(sorted(new)), float(np.max(np.abs(got_ - ora_))), tol_, short(c)),
                              dict(base, relation="reassign", assign=new, ts=lat2))
+            # (d'') a basis of ANOTHER length given to an evaluated object and to a fresh one: both must give the
+            # cosine sum of that basis (normalised with the published number of frequencies) and hence agree
+            if len(obj.freqs) and vb > 0:
+                stats["rebasis"] = stats.get("rebasis", 0) + 1
+                nb = gen_assignment(rng, c, other, rebasis=True)
+                np.random.seed(c["seed"] ^ 0x7777)
+                fresh = cls_(np.array(t), (c["fmin"], c["fmax"]), f_amplitude=amp_spec(c["amp"], c["ampc"]), uniqueness_factor=c["uf"], rms_voltage=other.rms)
+                assign(other, nb)
+                assign(fresh, dict(nb, rms=other.rms))
+                c2 = with_band(c, other)
+                lat2 = lat if cls == "fft" else list(t)
+                g1 = np.asarray(other.with_times(np.array(lat2)).values)
+                g2 = np.asarray(fresh.with_times(np.array(lat2)).values)
+                ora_ = cos_oracle(other, cls, t0, lat2)
+                tol_ = lattice_tol(c2, other, lat2)
+                d1, d2 = float(np.max(np.abs(g1 - ora_))), float(np.max(np.abs(g2 - ora_)))
+                if not max(d1, d2) <= tol_:
+                    lim.fail("rebasis", "probe:%s:rebasis-cosine-sum" % tag,
+                             "%s given a basis of %d frequencies (constructed with %d): the waveform is not the normalised cosine sum of the published basis "
+                             "(evaluated-before object: diff %.3g, fresh object: diff %.3g, tolerance %.3g, scale %.3g); case %s"
+                             % (cls, len(nb["amps"]), len(obj.freqs), d1, d2, tol_, vbound(other), short(c)),
+                             dict(base, relation="rebasis", assign=nb, ts=lat2))
+                elif not float(np.max(np.abs(g1 - g2))) <= vbound(other) * 1e-12:
+                    lim.fail("rebasis", "probe:%s:rebasis-twin" % tag, "two %s objects given the same basis of another length produce different waveforms "
+                             "(max diff %.3g); case %s" % (cls, float(np.max(np.abs(g1 - g2))), short(c)), dict(base, relation="rebasis", assign=nb, ts=lat2))
+            # (c') re-gridding onto windows that start / end at round decimal times inside the trace (values at
+            # shared absolute times, cosine oracle), plain and through Antenna.make_noise / full_waveform
+            if c.get("decimal_k") and len(obj.freqs) and vb > 0:
+                stats["round-windows"] = stats.get("round-windows", 0) + 1
+                ta = np.array(t)
+                for wname_, w_ in round_windows(rng, c).items():
+                    if len(w_) < 2:
+                        continue
+                    wa = np.array(w_)
+                    got_ = np.asarray(obj.with_times(wa).values)
+                    idx = [int(np.argmin(np.abs(ta - x))) for x in wa]
+                    sharedv = np.array([own[i] for i in idx])
+                    ok_shared = np.isclose(ta[idx], wa, rtol=0, atol=1e-6 * dt)
+                    slope_tol = lattice_tol(c, obj, w_)
+                    d_sh = float(np.max(np.abs(got_ - sharedv)[ok_shared])) if np.any(ok_shared) else 0.0
+                    d_or = float(np.max(np.abs(got_ - cos_oracle(obj, cls, t0, w_))))
+                    if not (d_sh <= slope_tol and d_or <= slope_tol):
+                        lim.fail("round-windows", "probe:%s:regrid-%s" % (tag, wname_),
+                                 "%s re-gridded onto a window %s (step %r, trace starts at -%d steps) does not reproduce the trace at the shared sample times "
+                                 "(diff %.3g) / the cosine sum of its basis (diff %.3g), tolerance %.3g, scale %.3g; case %s"
+                                 % (cls, wname_, dt, c["decimal_k"], d_sh, d_or, slope_tol, vb, short(c)), dict(base, relation="round-windows", window=wname_, ts=w_))
+                        break
+                    if cls == "fft" and wname_ in ("zero-start", "round-start"):
+                        ant = pyrex.Antenna(position=(0, 0, 0), freq_range=(c["fmin"], c["fmax"]), noise_rms=obj.rms, unique_noise_waveforms=max(1, int(c["uf"])))
+                        np.random.seed(c["seed"])
+                        a0 = np.asarray(ant.make_noise(ta).values)
+                        a1 = np.asarray(ant.make_noise(wa).values)
+                        a2 = np.asarray(ant.full_waveform(wa).values)
+                        sv = np.array([a0[i] for i in idx])
+                        dd = max(float(np.max(np.abs(a1 - sv)[ok_shared])), float(np.max(np.abs(a2 - sv)[ok_shared]))) if np.any(ok_shared) else 0.0
+                        if not dd <= lattice_tol(c, ant._noise_master, w_):
+                            lim.fail("round-windows-antenna", "probe:%s:antenna-regrid-%s" % (tag, wname_),
+                                     "Antenna.make_noise / full_waveform on a window %s do not reproduce the master's values at the shared sample times "
+                                     "(diff %.3g, scale %.3g); case %s" % (wname_, dd, vb, short(c)), dict(base, relation="round-windows", window=wname_, ts=w_))
+                            break
             # (h') a stored basis restored onto an antenna / antenna system whose master has already been evaluated
             if it % 2 == 1 and cls == "fft" and len(obj.freqs) and vb > 0:
                 stats["antenna-restore"] = stats.get("antenna-restore", 0) + 1
@@ -635,7 +789,9 @@ def probes(ctx, count):
 
 
 PINS = [("pyrex/signals.py", "FFTThermalNoise.__init__"), ("pyrex/signals.py", "FullThermalNoise.__init__"),
-        ("pyrex/antenna.py", "Antenna.make_noise"), ("pyrex/signals.py", "FunctionSignal.with_times"), ("pyrex/signals.py", "FunctionSignal.values")]
+        ("pyrex/antenna.py", "Antenna.make_noise"), ("pyrex/signals.py", "FunctionSignal.with_times"), ("pyrex/signals.py", "FunctionSignal.values"),
+        ("pyrex/signals.py", "FunctionSignal._full_times"), ("pyrex/signals.py", "FunctionSignal._value_window"),
+        ("pyrex/signals.py", "FunctionSignal.set_buffers")]
 
 
 def run(ctx):
@@ -684,8 +840,10 @@ def replay(ctx, obj):
     print("rms:", o.rms)
     ts = obj.get("ts") or obj.get("w1") or c["times"]
     if obj.get("history"):
-        o, houts = run_history(c, [dict(st, ts=st.get("ts", ts)) for st in obj["history"]])
-        print("history: build, evaluate values and a sub-window, then " + "; ".join("assign %s, evaluate" % "+".join(sorted(st["assign"])) for st in obj["history"]))
+        o, houts = run_history(c, [dict(st, ts=st.get("ts", ts)) for st in obj["history"]], obj.get("pre_eval", True))
+        print("history: build, " + ("evaluate values and a sub-window, " if obj.get("pre_eval", True) else "(no evaluation yet) ") + "then "
+              + "; ".join("assign %s, evaluate" % describe(st["assign"]) for st in obj["history"]))
+        print("band published now:", o.f_min, o.f_max, " number of frequencies:", len(o.freqs))
         print("basis published now: amps", np.asarray(o.amps)[:6], "phases", np.asarray(o.phases)[:6], "rms", o.rms)
     elif obj.get("relation") == "reassign":
         from pyrex.signals import FFTThermalNoise, FullThermalNoise
@@ -706,6 +864,10 @@ def replay(ctx, obj):
         else:
             print("first object's waveform on these times       :", ref[:12])
         o = other
+    elif obj.get("relation") == "rebasis":
+        np.asarray(o.values)
+        assign(o, obj["assign"])
+        print("history: evaluate, then assign %s" % describe(obj["assign"]))
     elif obj.get("relation") == "antenna-restore":
         import pyrex
         kw_ = dict(position=(0, 0, 0), freq_range=(c["fmin"], c["fmax"]), noise_rms=o.rms, unique_noise_waveforms=max(1, int(c["uf"])))
@@ -737,7 +899,7 @@ def replay(ctx, obj):
     if exe:
         rs = np.random.RandomState(c["seed"])
         raw = amp_expected(c["amp"], c["ampc"], o.freqs, rs)
-        outs = dft_extract.run_lines(exe, [model_lines(c, o.freqs, o.amps, o.phases, o.rms, ts), freq_line(c), rms_line(c),
+        outs = dft_extract.run_lines(exe, [model_lines(with_band(c, o), o.freqs, o.amps, o.phases, o.rms, ts), freq_line(c), rms_line(c),
                                            "zerodc %d %s %s" % (len(o.freqs), hexs(o.freqs), hexs(raw))])
         model = np.array(parse_floats(outs[0]))
         print("model (Coq, extracted)                :", model[:12])
@@ -756,7 +918,7 @@ def replay(ctx, obj):
         print("model amps :", ma[:8], "-> %s" % ("AGREE" if oka else "DISAGREE"))
         rayleigh_ok = c["amp"] != "rayleigh" or [x[1] for x in calls if x[0] == "rayleigh"] == [1 / np.sqrt(2)]
         print("numpy.random calls:", calls, "" if rayleigh_ok else "-> default amplitudes are not Rayleigh(1/sqrt 2)")
-        mutated = bool(obj.get("history") or obj.get("relation") == "reassign")   # the basis was re-assigned on purpose
+        mutated = bool(obj.get("history") or obj.get("relation") in ("reassign", "rebasis"))   # the basis was re-assigned on purpose
         rc = rc or (0 if (mutated or (okf and okr and oka and rayleigh_ok)) else 1)
     if obj.get("relation") in ("antenna", "exception") and c["cls"] == "fft":
         import pyrex
